@@ -330,11 +330,14 @@ fn word_bytes(arch: &str, w: u32) -> [u8; 4] {
 
 const ADDRS: [u64; 6] = [0x1000, 0x0040_0100, 0x1000_0000, 0x7fff_fff0, 0x0fff_fff8, 0x8000_0000];
 
-fn emit_mips(em: &mut Emit, rng: &mut Rng, arch: &str, t: &T, x: Fields, variant: &str, nstates: usize) {
+fn emit_mips(em: &mut Emit, rng: &mut Rng, arch: &str, t: &T, x: Fields, variant: &str, nstates: usize, over: &[(String, u64)]) {
     let big = arch == "mips";
     let w = enc(t, x);
     for k in 0..nstates {
         let mut st = mips_state(rng, big);
+        for (k, v) in over {
+            st.set(k, *v);
+        }
         let mut var = variant.to_string();
         if t.f == F::Mem {
             let al = mem_align(t.name);
@@ -344,7 +347,7 @@ fn emit_mips(em: &mut Emit, rng: &mut Rng, arch: &str, t: &T, x: Fields, variant
             }
             place_mem(rng, &mut st, x.rs & 31, x.imm & 0xffff, al, mis);
         }
-        if t.name == "div" || t.name == "divu" {
+        if over.is_empty() && (t.name == "div" || t.name == "divu") {
             // INT_MIN / -1, divisor zero, small divisors
             match rng.below(6) {
                 0 => {
@@ -356,7 +359,7 @@ fn emit_mips(em: &mut Emit, rng: &mut Rng, arch: &str, t: &T, x: Fields, variant
                 _ => {}
             }
         }
-        if t.name == "teq" && rng.chance(1, 2) {
+        if over.is_empty() && t.name == "teq" && rng.chance(1, 2) {
             let v = st.get(MIPS_REGS[(x.rs & 31) as usize]);
             st.set(MIPS_REGS[(x.rt & 31) as usize], v);
         }
@@ -446,10 +449,133 @@ fn emit_mips_branch(em: &mut Emit, rng: &mut Rng, arch: &str, t: &T, x: Fields, 
     }
 }
 
+
+/// boundary values every source register and implicit input is driven through
+const B5: [u64; 5] = [0, 1, 0x7fff_ffff, 0x8000_0000, 0xffff_ffff];
+/// (HI, LO) pairs for the instructions that read the accumulator
+const HILO: [(u64, u64); 6] =
+    [(0, 0), (0, 0xffff_ffff), (0xffff_ffff, 0xffff_ffff), (0x7fff_ffff, 0xffff_ffff), (0x8000_0000, 0), (0xffff_ffff, 0)];
+
+/// register aliasing patterns over (rd, rs, rt): which fields are forced equal, and to which register
+const ALIAS: [(&str, u32); 7] = [("none", 0), ("rd=rs", 4), ("rd=rt", 31), ("rs=rt", 4), ("all", 31), ("all", 0), ("rd=rs", 2)];
+
+fn apply_alias(x: &mut Fields, pat: &str, r: u32) {
+    match pat {
+        "rd=rs" => {
+            x.rd = r;
+            x.rs = r;
+            // immediate and memory formats: the destination is the rt field
+            if x.rt == r {
+                x.rt = (r + 1) & 31;
+            }
+        }
+        "rd=rt" => {
+            x.rd = r;
+            x.rt = r;
+            if x.rs == r {
+                x.rs = (r + 1) & 31;
+            }
+        }
+        "rs=rt" => {
+            x.rs = r;
+            x.rt = r;
+            if x.rd == r {
+                x.rd = (r + 1) & 31;
+            }
+        }
+        "all" => {
+            x.rd = r;
+            x.rs = r;
+            x.rt = r;
+        }
+        _ => {}
+    }
+}
+
+/// destination = source aliasing x boundary values of the sources x every boundary value of the implicit inputs
+/// (HI/LO for the accumulating and HI/LO-reading instructions)
+fn gen_mips_alias_boundary(rng: &mut Rng, em: &mut Emit, arch: &str) {
+    for t in MIPS.iter() {
+        if is_branch(t) || reg_fields(t.f).is_empty() {
+            continue;
+        }
+        let reads_hilo = matches!(t.name, "madd" | "maddu" | "msub" | "msubu" | "mfhi" | "mflo");
+        let nsrc = match t.f {
+            F::R3 | F::ShV | F::RsRt | F::RsRtC => 2,
+            F::Rd | F::Lui | F::Rdhwr => 0,
+            _ => 1,
+        };
+        for (pat, r) in ALIAS.iter() {
+            let mut x = rand_fields(rng);
+            // I-format: the destination is rt and the source rs: "rd=rs" means rt = rs there
+            if matches!(t.f, F::I | F::Mem) {
+                match *pat {
+                    "none" => {}
+                    "rs=rt" | "rd=rt" => continue,
+                    _ => {
+                        x.rs = *r;
+                        x.rt = *r;
+                    }
+                }
+            } else if t.f == F::ShI || t.f == F::Clz {
+                match *pat {
+                    "none" => {}
+                    "rs=rt" | "rd=rt" => continue,
+                    _ => {
+                        x.rd = *r;
+                        x.rt = *r;
+                        x.rs = *r;
+                    }
+                }
+            } else {
+                apply_alias(&mut x, pat, *r);
+            }
+            let var = if *pat == "none" { "boundary".to_string() } else { format!("alias-{}", pat) };
+            let hilos: &[(u64, u64)] = if reads_hilo { &HILO } else { &HILO[..1] };
+            for (hi, lo) in hilos.iter() {
+                for a in B5.iter() {
+                    for b in B5.iter() {
+                        if nsrc < 2 && *b != 0 {
+                            continue;
+                        }
+                        if nsrc == 0 && *a != 0 {
+                            continue;
+                        }
+                        let mut over: Vec<(String, u64)> = Vec::new();
+                        // sources: rs (or the shifted register rt of the immediate shifts), then rt
+                        let (s1, s2) = if t.f == F::ShI { (x.rt, x.rt) } else { (x.rs, x.rt) };
+                        if nsrc >= 2 && s2 & 31 != 0 {
+                            over.push((MIPS_REGS[(s2 & 31) as usize].to_string(), *b));
+                        }
+                        if nsrc >= 1 && s1 & 31 != 0 && t.f != F::Mem {
+                            over.push((MIPS_REGS[(s1 & 31) as usize].to_string(), *a));
+                        }
+                        if t.f == F::Mem && x.rt & 31 != 0 {
+                            over.push((MIPS_REGS[(x.rt & 31) as usize].to_string(), *a)); // the value stored / merged
+                        }
+                        if reads_hilo {
+                            over.push(("$hi".to_string(), *hi));
+                            over.push(("$lo".to_string(), *lo));
+                        } else if rng.chance(1, 2) {
+                            over.push(("$hi".to_string(), *rng.pick(&B5)));
+                            over.push(("$lo".to_string(), *rng.pick(&B5)));
+                        }
+                        if over.is_empty() {
+                            over.push(("$at".to_string(), *a));
+                        }
+                        emit_mips(em, rng, arch, t, x, &var, 1, &over);
+                    }
+                }
+            }
+        }
+    }
+}
+
 fn gen_mips(tier: Tier, rng: &mut Rng, em: &mut Emit) {
     let thorough = tier == Tier::Thorough;
     let ns = if thorough { 6 } else { 2 };
     for arch in ["mips", "mipsel"] {
+        gen_mips_alias_boundary(rng, em, arch);
         for t in MIPS.iter() {
             if is_branch(t) {
                 for kind in SLOTS.iter() {
@@ -488,7 +614,7 @@ fn gen_mips(tier: Tier, rng: &mut Rng, em: &mut Emit) {
                         "rt" => x.rt = v,
                         _ => x.rd = v,
                     }
-                    emit_mips(em, rng, arch, t, x, &format!("{}-sweep", f), if thorough { 3 } else { 1 });
+                    emit_mips(em, rng, arch, t, x, &format!("{}-sweep", f), if thorough { 3 } else { 1 }, &[]);
                 }
             }
             if has_imm(t.f) {
@@ -496,25 +622,25 @@ fn gen_mips(tier: Tier, rng: &mut Rng, em: &mut Emit) {
                     let mut x = rand_fields(rng);
                     x.imm = *imm;
                     x.sa = *imm & 31;
-                    emit_mips(em, rng, arch, t, x, "imm", ns);
+                    emit_mips(em, rng, arch, t, x, "imm", ns, &[]);
                 }
                 if t.f == F::ShI {
                     for sa in 0..32 {
                         let mut x = rand_fields(rng);
                         x.sa = sa;
-                        emit_mips(em, rng, arch, t, x, "imm", 1);
+                        emit_mips(em, rng, arch, t, x, "imm", 1, &[]);
                     }
                 }
             }
             if t.f == F::Mem && mem_align(t.name) > 1 {
                 for _ in 0..(if thorough { 20 } else { 4 }) {
                     let x = rand_fields(rng);
-                    emit_mips(em, rng, arch, t, x, "unaligned", 1);
+                    emit_mips(em, rng, arch, t, x, "unaligned", 1, &[]);
                 }
             }
             for _ in 0..(if thorough { 120 } else { 16 }) {
                 let x = rand_fields(rng);
-                emit_mips(em, rng, arch, t, x, "state", ns);
+                emit_mips(em, rng, arch, t, x, "state", ns, &[]);
             }
         }
         // opcode-space sweep: every (opcode, funct / rt selector) with random remaining bits: finds encodings the
@@ -589,7 +715,7 @@ fn ppc_state(rng: &mut Rng) -> St {
 }
 
 /// (mnemonic, word) pairs for one random choice of fields
-fn ppc_words(rng: &mut Rng, sweep: Option<(&str, u32)>) -> Vec<(&'static str, u32, Option<(u32, u32, u32)>)> {
+fn ppc_words(rng: &mut Rng, sweep: Option<(&str, u32)>, fixed: Option<(u32, u32, u32, u32)>) -> Vec<(&'static str, u32, Option<(u32, u32, u32)>)> {
     let mut f = rand_fields(rng);
     let mut rb = rng.below(32) as u32;
     if let Some((name, v)) = sweep {
@@ -599,8 +725,14 @@ fn ppc_words(rng: &mut Rng, sweep: Option<(&str, u32)>) -> Vec<(&'static str, u3
             _ => rb = v,
         }
     }
+    let mut rc = if rng.chance(1, 4) { 1 } else { 0 };
+    if let Some((t, a, b, c)) = fixed {
+        f.rt = t;
+        f.rs = a;
+        rb = b;
+        rc = c;
+    }
     let (rt, ra, imm) = (f.rt & 31, f.rs & 31, f.imm & 0xffff);
-    let rc = if rng.chance(1, 4) { 1 } else { 0 };
     let lk = rng.below(2) as u32;
     let d = |op: u32| op << 26 | rt << 21 | ra << 16 | imm;
     let x = |xo: u32, b: u32, rc: u32| 31u32 << 26 | rt << 21 | ra << 16 | b << 11 | xo << 1 | rc;
@@ -665,8 +797,11 @@ fn ppc_name(w: u32) -> String {
 
 fn gen_ppc(tier: Tier, rng: &mut Rng, em: &mut Emit) {
     let thorough = tier == Tier::Thorough;
-    let emit = |em: &mut Emit, rng: &mut Rng, name: &str, w: u32, place: Option<(u32, u32, u32)>, var: &str| {
+    let emit_over = |em: &mut Emit, rng: &mut Rng, name: &str, w: u32, place: Option<(u32, u32, u32)>, var: &str, over: &[(String, u64)]| {
         let mut st = ppc_state(rng);
+        for (k, v) in over {
+            st.set(k, *v);
+        }
         if let Some((ra, off16, size)) = place {
             let off = (off16 as u16 as i16) as i32 as u32;
             let ea: u32 = if ra == 0 && name != "lwzu" && name != "stwu" {
@@ -685,17 +820,76 @@ fn gen_ppc(tier: Tier, rng: &mut Rng, em: &mut Emit) {
         let addr = if rng.chance(3, 4) { ADDRS[0] } else { *rng.pick(&ADDRS) };
         em.case(&format!("ppc/{}/{}", name, var), format!("ins ppc {} 0x{:x} | {}", bytes_hex(&w.to_be_bytes()), addr, st.render()));
     };
+    let emit = |em: &mut Emit, rng: &mut Rng, name: &str, w: u32, place: Option<(u32, u32, u32)>, var: &str| {
+        emit_over(em, rng, name, w, place, var, &[])
+    };
+    // destination = source aliasing (rt=ra, rt=rb, ra=rb, all equal; several register numbers) x boundary values of the
+    // source registers x EVERY value of the implicit inputs: CA, the CR bit a branch tests, CTR, LR
+    let patterns: [(&str, u32, u32, u32); 10] = [
+        ("boundary", 3, 4, 5), ("alias-rt=ra", 4, 4, 5), ("alias-rt=ra", 31, 31, 7), ("alias-rt=rb", 4, 6, 4), ("alias-rt=rb", 31, 3, 31),
+        ("alias-ra=rb", 5, 4, 4), ("alias-ra=rb", 9, 31, 31), ("alias-all", 4, 4, 4), ("alias-all", 31, 31, 31), ("alias-all", 0, 0, 0),
+    ];
+    for (var, rt, ra, rb) in patterns.iter() {
+        for rc in 0..2u32 {
+            for (name, w, place) in ppc_words(rng, None, Some((*rt, *ra, *rb, rc))) {
+                let is_branch = matches!(name, "b" | "bl" | "bc" | "beq" | "bclr" | "blr" | "bctr" | "bcctr");
+                let has_rc = matches!(name, "add" | "subf" | "addze" | "or" | "srawi" | "rlwinm");
+                if rc == 1 && !has_rc {
+                    continue;
+                }
+                if is_branch {
+                    if *var != "boundary" {
+                        continue;
+                    }
+                    // the tested CR bit (every bit of its field), CTR around zero, LR
+                    let bi = (w >> 16) & 31;
+                    for crv in 0..2u64 {
+                        for ctr in [0u64, 1, 2, 0x8000_0000, 0xffff_ffff] {
+                            for lr in [0u64, 0x7fff_fffc, 0xffff_fffc] {
+                                let f = ["lt", "gt", "eq", "so"][(bi & 3) as usize];
+                                let over = vec![(format!("cr{}-{}", bi >> 2, f), crv), ("ctr".to_string(), ctr), ("lr".to_string(), lr)];
+                                emit_over(em, rng, name, w, place, "boundary", &over);
+                            }
+                        }
+                    }
+                    continue;
+                }
+                let two_src = matches!(name, "add" | "subf" | "or");
+                for ca in 0..2u64 {
+                    for a in B5.iter() {
+                        for b in B5.iter() {
+                            if !two_src && *b != 0 {
+                                continue;
+                            }
+                            let mut over = vec![("carry".to_string(), ca), ("so".to_string(), ca ^ 1)];
+                            // X-forms whose destination is the ra field read the rt field (rS)
+                            let src_in_rt = matches!(name, "or" | "mr" | "srawi" | "rlwinm" | "slwi" | "mtlr" | "mtctr" | "stw" | "stwu" | "stmw");
+                            if two_src {
+                                over.push((format!("r{}", rb), *b));
+                            }
+                            over.push((format!("r{}", if src_in_rt { *rt } else { *ra }), *a));
+                            if matches!(name, "mflr" | "mfctr") {
+                                over.push(("lr".to_string(), *a));
+                                over.push(("ctr".to_string(), *a));
+                            }
+                            emit_over(em, rng, name, w, place, var, &over);
+                        }
+                    }
+                }
+            }
+        }
+    }
     // register-field sweeps
     for field in ["rt", "ra", "rb"] {
         for v in 0..32u32 {
-            for (name, w, place) in ppc_words(rng, Some((field, v))) {
+            for (name, w, place) in ppc_words(rng, Some((field, v)), None) {
                 emit(em, rng, name, w, place, &format!("{}-sweep", field));
             }
         }
     }
     for imm in IMMS.iter() {
         for _ in 0..2 {
-            let mut ws = ppc_words(rng, None);
+            let mut ws = ppc_words(rng, None, None);
             for (name, w, place) in ws.iter_mut() {
                 // force the 16-bit immediate of the D-forms
                 let op = *w >> 26;
@@ -710,7 +904,7 @@ fn gen_ppc(tier: Tier, rng: &mut Rng, em: &mut Emit) {
         }
     }
     for _ in 0..(if thorough { 400 } else { 40 }) {
-        for (name, w, place) in ppc_words(rng, None) {
+        for (name, w, place) in ppc_words(rng, None, None) {
             emit(em, rng, name, w, place, "state");
         }
     }
